@@ -362,6 +362,28 @@ def daemon_scenarios(prop):
                     "meta": {"family": "daemon", "sessions": sessions, "reset_before": reset_before}})
     return out
 
+def daemon_twins(scenarios, every):
+    """Every `every`-th scenario once more in daemon mode: ONE agent process performs all its runs (the router's
+    running configuration, the IRR data and the router's faults change between the runs of that process) and then
+    the last run again with unchanged inputs.  Whatever the process carries over from one run to the next - caches,
+    remembered failures, remembered router state, credentials - must not change what a run does."""
+    out = []
+    for s in scenarios[::max(1, every)]:
+        if s.get("daemon") or s.get("target") == "local":
+            continue
+        if any(r.get("twin") or r.get("tamper") or r.get("style") or r.get("irr_mode", "ok") != "ok" for r in s["runs"]):
+            continue
+        t = json.loads(json.dumps(s))
+        last = json.loads(json.dumps(t["runs"][-1]))
+        # "unchanged inputs" only means something after a run that was not disturbed by the router
+        last["repeat"] = not last.get("faults"); last["faults"] = []
+        t["runs"].append(last)
+        t["case"] = s["case"] + "-D"
+        t["daemon"] = {"period": 1, "sessions": len(t["runs"]), "reset_before": []}
+        t["meta"] = dict(t.get("meta") or {}, mode="daemon")
+        out.append(t)
+    return out
+
 def tamper_scenarios(prop):
     """C02: the agent installs policies itself (run 1); then somebody changes the ephemeral instance by hand
     (run 2 starts from the tampered state) while the targets stay the same or change."""
